@@ -10,6 +10,8 @@ pub struct Raw {
     pub conn: quinn::Connection,
     /// keeps the endpoint (and its driver task) alive
     pub endpoint: quinn::Endpoint,
+    /// stream handles parked here stay open until the raw peer is dropped
+    pub kept: std::sync::Mutex<Vec<Box<dyn std::any::Any + Send>>>,
 }
 
 #[derive(Debug, Clone, PartialEq, Eq)]
@@ -137,14 +139,19 @@ impl Raw {
             .map_err(|e| format!("connect: {e:?}"))?
             .await
             .map_err(|e| format!("handshake: {e:?}"))?;
-        Ok(Raw { conn, endpoint })
+        Ok(Raw { conn, endpoint, kept: Default::default() })
     }
 
     /// raw server: accepts one connection from a wtransport client
     pub async fn accept(endpoint: quinn::Endpoint) -> Result<Raw, String> {
         let inc = endpoint.accept().await.ok_or("endpoint closed")?;
         let conn = inc.await.map_err(|e| format!("handshake: {e:?}"))?;
-        Ok(Raw { conn, endpoint })
+        Ok(Raw { conn, endpoint, kept: Default::default() })
+    }
+
+    /// keep a handle alive (dropping a quinn stream handle sends STOP_SENDING / FIN)
+    pub fn hold<T: Send + 'static>(&self, t: T) {
+        self.kept.lock().unwrap().push(Box::new(t));
     }
 
     pub async fn open_uni_with(&self, bytes: &[u8]) -> Result<SendStream, String> {
